@@ -17,6 +17,7 @@ type Profile struct {
 	WBurst      int
 	MaxChain    int
 	MaxChildren int
+	Replies     bool // the receiver may answer messages with Context.Respond
 	Lifecycle   bool // planned panics in Initialized / Started
 	SpawnSends  bool
 	MaxBudget   int
@@ -38,6 +39,9 @@ func Gen(t *rapid.T, p Profile) Spec {
 	s.SpawnCtx = rapid.SampledFrom([]string{"", "", "live", "cancelled"}).Draw(t, "spawn_ctx")
 	if len(p.Spins) > 0 {
 		s.Spin = rapid.SampledFrom(p.Spins).Draw(t, "spin")
+	}
+	if p.Replies {
+		s.Replies = rapid.Bool().Draw(t, "replies")
 	}
 	if p.MaxChildren > 0 {
 		s.Children = rapid.IntRange(0, p.MaxChildren).Draw(t, "children")
